@@ -373,14 +373,20 @@ def process_batch(ctx, drv, batch, work):
 PATHOLOGICAL = re.compile(r"##\s*##|##\s*#(?!#)|(?<!#)#\s*##")
 
 
-def violates(drv, defines, text, work):
+def failure_signature(st, val):
+    return ("exception", str(val).split(":")[0]) if st == "exc" else ("tokens",)
+
+
+def violates(drv, defines, text, work, signature=None):
     if any(PATHOLOGICAL.search(d.split(")", 1)[-1] if "(" in d.split()[1] else d) for d in defines):
         return False
     (gtext, diag), = gcc.expand_texts([(defines, text)], work, name="shrink.c")
     if gtext is None:
         return False
     (st, val), _ = drv.expand(defines, text, "define")
-    return st == "exc" or val != pptok.atoms(gtext)
+    if not (st == "exc" or val != pptok.atoms(gtext)):
+        return False
+    return signature is None or failure_signature(st, val) == signature
 
 
 TOK = re.compile(r'##|\.\.\.|"(?:\\.|[^"\\])*"|\'(?:\\.|[^\'\\])*\'|[A-Za-z_]\w*|\.?\d[\w.]*|\S')
@@ -396,8 +402,9 @@ def split_define(d):
 def shrink(drv, defines, text, work, budget=160):
     """Drop macro definitions, body tokens and probe tokens while gcc still accepts and CBI still differs."""
     defines = list(defines)
+    sig = failure_signature(*drv.expand(defines, text, "define")[0])
     toks = TOK.findall(text)
-    if not violates(drv, defines, " ".join(toks), work):
+    if not violates(drv, defines, " ".join(toks), work, sig):
         toks = text.split(" ")
     changed = True
     while changed and budget > 0:
@@ -405,7 +412,7 @@ def shrink(drv, defines, text, work, budget=160):
         for i in range(len(defines)):
             cand = defines[:i] + defines[i + 1:]
             budget -= 1
-            if violates(drv, cand, " ".join(toks), work):
+            if violates(drv, cand, " ".join(toks), work, sig):
                 defines, changed = cand, True
                 break
         if changed:
@@ -414,7 +421,7 @@ def shrink(drv, defines, text, work, budget=160):
             for w in (3, 1):
                 cand = toks[:i] + toks[i + w:]
                 budget -= 1
-                if cand and violates(drv, defines, " ".join(cand), work):
+                if cand and violates(drv, defines, " ".join(cand), work, sig):
                     toks, changed = cand, True
                     break
             if changed or budget <= 0:
@@ -427,7 +434,7 @@ def shrink(drv, defines, text, work, budget=160):
                 nb = body[:i] + body[i + 1:]
                 cand = defines[:di] + [(head + " " + " ".join(nb)).rstrip()] + defines[di + 1:]
                 budget -= 1
-                if violates(drv, cand, " ".join(toks), work):
+                if violates(drv, cand, " ".join(toks), work, sig):
                     defines, changed = cand, True
                     break
                 if budget <= 0:
